@@ -78,7 +78,7 @@ CHECKS.update({
     "C10": ("fault_enumeration", "fault", "runtime monitor: fork + os._exit() before each mutating operation in turn (and inside descriptor-level writes, half written), then a fresh instance inspects the store, recovers the interrupted pid and runs a second delete / store round",
             "Complete enumeration of crash points (every mutating operation incl. buffer-flush and flush-before-truncate points) of 29 (start state, call) cases x 5 identifier / configuration variants (thorough); bystanders, interrupted pid, the delete+store recovery and a second round of it are checked on a fresh instance.",
             "4/C10", FAULT_NOTE),
-    "C13": ("fault_enumeration", "fault", "runtime monitor: OSError injected at each fault site in turn (EIO/ENOSPC/EACCES, one-off and persistent per operation class), post-state diffed against the fault-free run, retry executed; probe audited against strace on every run",
+    "C13": ("fault_enumeration", "fault", "runtime monitor: OSError injected at each fault site in turn (EIO/ENOSPC/EACCES, one-off and persistent per operation class; a staged file removed just before its publication), post-state diffed against the fault-free run, retry executed; probe audited against strace on every run",
             "Complete enumeration of fault sites x 3 errnos x 2 persistence modes of 23 (start state, call) cases; outcome vs effect, unbound-and-retryable pid, previous metadata version, bystanders.",
             "4/C13", FAULT_NOTE),
 })
